@@ -592,6 +592,10 @@ impl CompactThetaSketch {
         num_entries: usize,
         theta: u64,
     ) -> Result<Vec<u64>, Error> {
+        // Nothing is allocated before the entries are known to be present.
+        if cursor.remaining() / 8 < num_entries {
+            return Err(Error::insufficient_data("entries"));
+        }
         let mut entries = Vec::with_capacity(num_entries);
         for _ in 0..num_entries {
             let hash = cursor.read_u64_le().map_err(insufficient_data("entries"))?;
@@ -806,6 +810,14 @@ impl CompactThetaSketch {
                 .read_u8()
                 .map_err(insufficient_data("num_entries_byte"))?;
             num_entries |= (entry_count_byte as usize) << ((i as usize) << 3);
+        }
+
+        // Nothing is allocated before the packed deltas are known to be present.
+        let num_blocks = (num_entries / BLOCK_WIDTH) as u64;
+        let tail_bits = (num_entries % BLOCK_WIDTH) as u64 * entry_bits as u64;
+        let packed_bytes = num_blocks * entry_bits as u64 + tail_bits.div_ceil(8);
+        if (cursor.remaining() as u64) < packed_bytes {
+            return Err(Error::insufficient_data("delta_block"));
         }
 
         // unpack blocks of BLOCK_WIDTH deltas
